@@ -303,6 +303,7 @@ func c05AsmKeySchedule(r *Report, u *AsmUnit, arch string) {
 		r.Fatalf("unresolved anchor: %s expandKeyAsm", arch)
 		return
 	}
+	rt = rt.UnrollConstLoops()
 	flow := AnalyzeFlow(rt)
 	con := asmContracts(arch)["expandKeyAsm"]
 	dataSize := map[string]int{}
